@@ -102,6 +102,7 @@ func loadProg(dir string, cfg Config) (*Prog, error) {
 		return nil, fmt.Errorf("package stun or internal/hmac missing in %s", cfg)
 	}
 	p.collectFuncs()
+	callerProg = p
 	return p, nil
 }
 
